@@ -144,7 +144,7 @@ class C06(Check):
         if err:
             raise RuntimeError('translator cross-check: %s' % err)
         names = [n for n, _ in info['defaults']]
-        if names != X.PREF_ORDER:
+        if sorted(names) != sorted(X.PREF_ORDER):
             raise RuntimeError('preference fields changed: %r' % (sorted(set(names) ^ set(X.PREF_ORDER)),))
         ctx.notes['prefs_documented'] = len(info['documented'])
         ctx.notes['prefs_defaulted'] = len(info['defaults'])
@@ -157,6 +157,7 @@ class C06(Check):
         im = Impl()
         self.im = im
         try:
+            self.oracle_record(ctx, im)
             self.run_corpus(ctx, im)
             self.corr_append(ctx, im)
             self.run_sheets(ctx, im)
@@ -164,6 +165,31 @@ class C06(Check):
             self.oracle_restore(ctx, im)
         finally:
             im.cu.ser.prefs.useDefaults()
+
+    # -- useDefaults() restores the record, whatever was assigned (needs no model) -------------------
+    def oracle_record(self, ctx, im):
+        P = im.cu.serialize.Preferences
+        fresh = dict(vars(P()))
+        for k in X.PREF_ORDER:
+            alts = ALT.get(k, [True, False])
+            for v in alts:
+                p = P()
+                setattr(p, k, v)
+                p.useDefaults()
+                ctx.case(key=('record', k, repr(v)), nontrivial=True, kind='record-restore')
+                if dict(vars(p)) != fresh:
+                    ctx.violate('useDefaults() does not restore the preference record',
+                                {'history': ['%s = %r' % (k, v), 'useDefaults()']},
+                                {'after': {a: b for a, b in vars(p).items() if fresh.get(a, None) != b}})
+        p = P()
+        p.useMinified()
+        p.useDefaults()
+        if dict(vars(p)) != fresh:
+            ctx.violate('useDefaults() does not restore the preference record',
+                        {'history': ['useMinified()', 'useDefaults()']}, None)
+        missing = [k for k in X.PREF_ORDER if k not in fresh]
+        if missing:
+            raise RuntimeError('preferences missing from a fresh record: %r' % missing)
 
     # -- preference records ----------------------------------------------------------------------
     def singles(self, im, rng=None):
@@ -388,6 +414,7 @@ class C06(Check):
 
     def content_oracle(self, ctx, im, sh, wit, prefs, text):
         leaf = {k: prefs[k] for k in O.LEAF}
+        leaf.update(O.LEAF_FIXED)
         try:
             expected = im.with_prefs(leaf, lambda: O.effect(O.canon(sh), prefs, O.used_uris(sh)))
             sh2 = im.parse(text)
@@ -423,35 +450,51 @@ class C06(Check):
                         out.append(z)
                 return out
             return x
-        if n3(got) == n3(expected):
-            ctx.violate('reparse differs from the documented effect', wit, self.first_diff(got, expected),
-                        known='C06-indent-inside-token')
-            return
-        if prefs['selectorCombinatorSpacer'] == '' and n3(n4(got)) == n3(n4(expected)):
-            ctx.violate('reparse differs from the documented effect', wit, self.first_diff(got, expected),
-                        known='C06-nth-plus-fusion')
-            return
-        # region of C06-nested-media-namespace: a declared namespace that is used only by selectors two or more
-        # @media levels deep (`_getUsedURIs` looks one level deep): its @namespace rule is dropped although used, and
-        # the reparse then loses the rules with the undeclared prefix. Compared without the @media subtrees and
-        # without those @namespace rules.
+
+        def n8(x):   # region of C06-hash-in-unknown-rule: a HASH token of an unknown at-rule is shortened too
+            if isinstance(x, (list, tuple)):
+                if len(x) == 2 and x[0] == 'HASH' and isinstance(x[1], str):
+                    v = x[1]
+                    if len(v) == 7 and v[1] == v[2] and v[3] == v[4] and v[5] == v[6]:
+                        return ['HASH', '#' + v[1] + v[3] + v[5]]
+                    return list(x)
+                return [n8(y) for y in x]
+            return x
+        lost = set()
         if prefs['keepUsedNamespaceRulesOnly']:
-            shallow = {u for u in sh._getUsedURIs() if isinstance(u, str)}
-            lost = O.used_uris(sh) - shallow
-            if lost:
-                def strip_ns(proj):
-                    return [r for r in proj if r[0] != 'media' and not (r[0] == 'namespace' and r[2] in lost)]
-                if n3(n4(strip_ns(got))) == n3(n4(strip_ns(expected))):
-                    ctx.violate('reparse differs from the documented effect', wit,
-                                self.first_diff(got, expected), known='C06-nested-media-namespace')
-                    return
-        # region of C06-empty-items-block: a block that is written with nothing but white space inside
+            lost = O.used_uris(sh) - {u for u in sh._getUsedURIs() if isinstance(u, str)}
+
+        def n7(x):   # region of C06-nested-media-namespace (see known/C06.json): compared without the @media subtrees
+            return [r for r in x if r[0] != 'media' and not (r[0] == 'namespace' and r[2] in lost)]
+
+        def n5(x):   # region of C06-empty-items-block: rules written with a white-space-only block
+            return self.drop_empty(x)
+        # the normalisations whose region predicate holds for this case, applied to both sides
+        norms = [('C06-indent-inside-token', n3)]
+        if prefs['selectorCombinatorSpacer'] == '':
+            norms.append(('C06-nth-plus-fusion', n4))
+        if prefs['minimizeColorHash']:
+            norms.append(('C06-hash-in-unknown-rule', n8))
+        if lost:
+            norms.append(('C06-nested-media-namespace', n7))
         if not prefs['keepEmptyRules']:
-            g2 = self.drop_empty(got)
-            if n3(g2) == n3(expected) and g2 != got:
-                ctx.violate('reparse differs from the documented effect', wit,
-                            self.first_diff(got, expected), known='C06-empty-items-block')
-                return
+            norms.append(('C06-empty-items-block', n5))
+
+        def apply(fs, x):
+            for _, f in fs:
+                x = f(x)
+            return json.loads(json.dumps(x))
+        if apply(norms, got) == apply(norms, expected):
+            # attribute to the first normalisation that cannot be left out
+            for i in range(len(norms)):
+                rest = norms[:i] + norms[i + 1:]
+                if apply(rest, got) != apply(rest, expected):
+                    ctx.violate('reparse differs from the documented effect', wit, self.first_diff(got, expected),
+                                known=norms[i][0])
+                    return
+            ctx.violate('reparse differs from the documented effect', wit, self.first_diff(got, expected),
+                        known=norms[0][0])
+            return
         ctx.violate('reparse differs from the documented effect of the preferences', wit,
                     self.first_diff(got, expected))
 
@@ -680,8 +723,9 @@ class C06(Check):
                     q[k] = im.defaults[k]
                 base, _ = im.serialize(sh, q)
                 return O.nontoks(res[1]) != O.nontoks(base[1])
-            if fid in ('C06-empty-items-block', 'C06-nested-media-namespace'):
+            if fid in ('C06-empty-items-block', 'C06-nested-media-namespace', 'C06-hash-in-unknown-rule'):
                 leaf = {k: prefs[k] for k in O.LEAF}
+                leaf.update(O.LEAF_FIXED)
                 expected = im.with_prefs(leaf, lambda: O.effect(O.canon(sh), prefs, O.used_uris(sh)))
                 sh2 = im.parse(res[1])
                 got = im.with_prefs(leaf, lambda: O.strip_flags(O.canon(sh2)))
